@@ -99,6 +99,9 @@ def run_step(sd, step):
             r = sd.build()
         elif op == "succ":
             r = sorted(sd.node_successors(node_ref(sd, a[0]), compute=True))
+        elif op == "succ_space":  # single-node expansion of the node whose space is given (nothing happens if the diagram has no such node)
+            i = sd.find_node(dict(a[0]))
+            r = None if i is None else sorted(sd.node_successors(i, compute=True))
         elif op == "cands":
             r = states_json(sd.node_attractor_candidates(node_ref(sd, a[0]), compute=True, greedy_asp_minification=a[1],
                                                          simulation_minification=a[2]))
@@ -428,6 +431,27 @@ def same_motifs_one_maa(bnet, valuations):
         motifs.add(tuple(sorted(skey(m) for m in sub.max_traps_in({}))))
         maa.add(bool(sub.motif_avoidant()))
     return len(motifs) == 1 and maa == {True, False}
+
+
+def hidden_children(bnet):
+    """Shape filter of the C05 family `hidden_node_cases` (brute force on the full reference diagram): triples (n, m, X) of node spaces such that n and m
+    are children of the root, X is a child of m, X lies strictly inside n and is NOT a child of n (it is reachable from n only through other nodes), and m
+    does not lie inside n."""
+    net = oracle.Net.from_bnet(bnet)
+    rk, nodes, edges = net.full_sd()
+    kids = {}
+    for (p, c) in edges:
+        kids.setdefault(p, set()).add(c)
+    out = []
+    roots = sorted(kids.get(rk, ()))
+    for n in roots:
+        for m in roots:
+            if m == n or is_subspace(nodes[m], nodes[n]):
+                continue
+            for x in sorted(kids.get(m, ())):
+                if x not in kids.get(n, ()) and nodes[x] != nodes[n] and is_subspace(nodes[x], nodes[n]):
+                    out.append((nodes[n], nodes[m], nodes[x]))
+    return out
 
 
 def net_info(net: oracle.Net) -> dict:
